@@ -9,6 +9,7 @@
    blocks and adds the match to the pattern's MatchList, which keeps one
    match per start offset. *)
 From Coq Require Import List NArith Bool.
+From YV Require Import Gen.ScanState.
 Import ListNotations.
 Local Open Scope N_scope.
 
@@ -49,3 +50,27 @@ Definition starts (l : list mtch) : list N := map m_start l.
 
 (* [keep] returns one of its arguments *)
 Definition selects (keep : mtch -> mtch -> mtch) : Prop := forall a b, keep a b = a \/ keep a b = b.
+
+(* ---- patterns anchored at a fixed offset (`$a at N` as the only use) ----
+   verify_anchored_patterns checks the literal at N - base inside every block;
+   what happens when the block's base is past N is GENERATED from the source
+   (overflowing_sub + skip, or a subtraction that saturates at 0). *)
+Definition slice (f : list N) (a b : N) : list N := firstn (N.to_nat (b - a)) (skipn (N.to_nat a) f).
+Fixpoint bytes_eqb (a b : list N) : bool :=
+  match a, b with [], [] => true | x :: a', y :: b' => (x =? y) && bytes_eqb a' b' | _, _ => false end.
+
+Definition anchored_rel (n base : N) : option N :=
+  if anchored_skips_block_past_offset then (if base <=? n then Some (n - base) else None)
+  else Some (n - base).
+
+(* matches of the literal [lit] anchored at absolute offset [n] found in the block (base, len) of [file] *)
+Definition anchored_block (file : list N) (n : N) (lit : list N) (b : N * N) : list mtch :=
+  let len := N.of_nat (length lit) in
+  match anchored_rel n (fst b) with
+  | Some r => if (r + len <=? snd b) && bytes_eqb (slice file (fst b + r) (fst b + r + len)) lit
+              then [(fst b + r, len, 0)] else []
+  | None => []
+  end.
+
+Definition anchored_scan (keep : mtch -> mtch -> mtch) (file : list N) (n : N) (lit : list N) (blocks : list (N * N)) : list mtch :=
+  fold_left (fun acc b => add_all keep (anchored_block file n lit b) acc) blocks [].
